@@ -24,6 +24,8 @@ TRUSTED = ["bytes.find / bytes.lower / bytes.isalnum / bytes.isupper / bytes.isl
 
 def check(run):
     prog = run.prog
+    from . import common as _common
+    _common.fresh_hits(run, "C17")
     km = prog.mod("keyword")
     fa = prog.fn("keyword.find_all")
     fk = prog.fn("keyword.find_keywords")
